@@ -2,7 +2,7 @@
 SPECIFICATION Spec
 CONSTANTS
   Variant = "round"
-  Families = {"A", "B", "C", "D"}
+  Families = {"A", "B", "C", "D", "F", "G"}
 INVARIANT ModeOK
 INVARIANT LexerShape
 INVARIANT Requirement
